@@ -28,6 +28,42 @@ func apalacheInv(dir, spec, inv string) (string, string) {
 	return "", out
 }
 
+// apalacheCheck runs `apalache-mc check <args> spec.tla` on a private copy of the module.
+func apalacheCheck(dir, spec string, args ...string) (string, string) {
+	os.MkdirAll(dir, 0o755)
+	src, err := os.ReadFile(filepath.Join(verifDir, "spec", spec+".tla"))
+	if err != nil {
+		return "", err.Error()
+	}
+	os.WriteFile(filepath.Join(dir, spec+".tla"), src, 0o644)
+	full := append(append([]string{"check"}, args...), "--out-dir="+filepath.Join(dir, "out"), spec+".tla")
+	out, _ := run(dir, nil, 15*time.Minute, "apalache-mc", full...)
+	switch {
+	case strings.Contains(out, "The outcome is: NoError"):
+		return "NoError", out
+	case strings.Contains(out, "The outcome is: Error"):
+		return "Error", out
+	}
+	return "", out
+}
+
+// oneofInductive: unbounded-history proof of the oneof discipline of the reflection machine
+// (spec/APA_Oneof.tla): base case, inductive step, and the action properties after one step.
+func oneofInductive(c *Ctx) {
+	dir := filepath.Join(c.S.Dir, "apa-oneof")
+	for _, a := range [][]string{
+		{"--init=Init", "--inv=IndInv", "--length=0"},
+		{"--init=IndInit", "--inv=IndInv", "--length=1"},
+		{"--init=IndInit", "--inv=StepProps", "--length=1"},
+	} {
+		if r, out := apalacheCheck(dir, "APA_Oneof", a...); r != "NoError" {
+			c.R.InternalErr("Apalache did not confirm APA_Oneof %v: %q %s", a, r, trunc(lastLines(out, 8), 600))
+			return
+		}
+	}
+	c.R.Cov["apalache_oneof_inductive_invariant"] = "IndInv inductive (Init => IndInv; IndInv /\\ Next => IndInv'), StepProps after every step: NoError"
+}
+
 func init() {
 	register(&Check{ID: "C17", Level: "model_checking", Run: func(c *Ctx) {
 		c.R.Trusted = []string{"TLC 1.8.0 / SANY", "Apalache 0.58.0 + Z3", "Go toolchain", "timestamppb/durationpb"}
